@@ -21,7 +21,7 @@ import (
 func stripThrown(ops []Op, thrown map[int]bool) []Op {
 	out := make([]Op, len(ops))
 	for i, o := range ops {
-		if o.K == 'r' && thrown[o.ID] {
+		if (o.K == 'r' || o.K == 'w') && thrown[o.ID] {
 			o.Body = []Op{{K: '!', ID: o.ID}}
 		} else {
 			o.Body = stripThrown(o.Body, thrown)
